@@ -123,6 +123,8 @@ func clusterProgramOpt(rng *rand.Rand, prog []string, crashes bool) []string {
 			joined = true
 		case r == 3:
 			checkpoint()
+		case r == 6 && joined:
+			ops = append(ops, fmt.Sprintf("c.failelect n=%d", writes))
 		case (r == 4 || r == 5) && crashes:
 			// a crash: the database falls back to its last flush, the node replays from there
 			ops = append(ops, "c.crash "+anyNode())
@@ -357,6 +359,47 @@ func (e *c06Exec) op(op string) string {
 			return "~" + msg
 		}
 		return "ok"
+	case "c.failelect":
+		// the leader, cut off, takes a write it cannot commit and fails to get elected for the next term; another
+		// node is elected by the others and the old leader comes back as a follower (its uncommitted entry is
+		// cut off). Its database must not have run ahead of what was committed.
+		if len(e.members) < 3 {
+			return "ok"
+		}
+		ld := e.c.LeaderNode()
+		if ld == nil {
+			return "err:no-leader"
+		}
+		shard := cluster.Shard
+		key := "uncommitted-" + kvs["n"]
+		dbc, err := e.c.FailedElection(ld.Name, e.members, &proto.WriteRequest{Shard: &shard, Puts: []*proto.PutRequest{{Key: key, Value: []byte("never-committed")}}})
+		if err != nil {
+			e.poisoned = true
+			return "~err:failelect:" + strings.ReplaceAll(err.Error(), " ", "_")
+		}
+		if dbc > e.written {
+			e.poisoned = true
+			return fmt.Sprintf("APPLIED-UNCOMMITTED node=%s db-commit-offset=%d committed=%d", ld.Name, dbc, e.written)
+		}
+		var others []string
+		for _, m := range e.members {
+			if m != ld.Name {
+				others = append(others, m)
+			}
+		}
+		if err := e.c.Elect(others[0], others); err != nil {
+			e.poisoned = true
+			return "~err:elect:" + strings.ReplaceAll(err.Error(), " ", "_")
+		}
+		if err := e.c.Demote(ld.Name); err != nil {
+			e.poisoned = true
+			return "~err:demote:" + strings.ReplaceAll(err.Error(), " ", "_")
+		}
+		if err := e.c.Join(e.c.LeaderNode().Name, ld.Name); err != nil {
+			e.poisoned = true
+			return "~err:rejoin:" + strings.ReplaceAll(err.Error(), " ", "_")
+		}
+		return "ok"
 	case "c.crash":
 		if !e.isMember(f[1]) {
 			return "ok" // the node has not joined yet
@@ -460,6 +503,8 @@ func (C06) Oracle(ops, impl, model []string) string {
 		switch {
 		case out == "hang" || out == "panic":
 			return fmt.Sprintf("op %d (%s): %s", i, o, out)
+		case strings.HasPrefix(out, "APPLIED-UNCOMMITTED"):
+			return fmt.Sprintf("op %d: a node that failed to get elected has applied entries of its log that no quorum had acknowledged: %s", i, out)
 		case strings.HasPrefix(out, "DIVERGED"):
 			return fmt.Sprintf("op %d: replicas that applied the same committed prefix differ: %s", i, out)
 		case strings.HasPrefix(out, "NOT-SYNCED"):
